@@ -28,7 +28,7 @@ _cfg = {"P0": P0, "tsamp": 1e-3, "nsamples": 100000, "nchans": 64, "foff": -1.0}
 DYADIC = {"P0": 1.0, "tsamp": 2.0 ** -10, "nsamples": 65536}
 # a 5 ms pulsar folded for 600 s into 64 bins: a change of the period by one part in a million drifts the last sub-integration by 7.7 bins
 PPM = {"P0": 0.005, "tsamp": 1.0e-4, "nsamples": 6000000}
-PPM_SHAPES = ((4, 3, 64), (2, 1, 64))
+PPM_SHAPES = ((4, 3, 64), (2, 1, 64), (3, 2, 50))     # 50 bins: absolute shifts of tens of thousands of bins with a bin count that does not divide 2^16
 # an over-resolved fold: 64 bins on a 16 ms period sampled every 0.5 ms (a phase bin is narrower than a sample; Filterbank.fold only warns)
 OVERRES = {"P0": 0.016, "tsamp": 5.0e-4, "nsamples": 200000}
 OVERRES_SHAPES = ((2, 4, 64), (3, 2, 64))
@@ -36,7 +36,7 @@ DYADIC_SHAPES = ((4, 1, 32), (8, 2, 32))
 
 
 def REQUIRED(tier):
-    return ["histories", "hook_checks", "rotation_checks", "law:repeat_noop", "law:return_restores", "law:history_independence", "ops:update_dm", "ops:update_period", "shape:single_subband", "shape:single_subint", "layout:F", "layout:transposed_view", "layout:strided_view", "dyadic_histories", "exact_half_bin_states", "ops:centre_copy_retuned", "nchans:64", "nchans:128", "ppm_histories", "overresolved_histories", "histories:warnings_as_errors", "cubes:with_empty_phase_bins", "band:ascending", "ops:update_dm_to_zero"]
+    return ["histories", "hook_checks", "rotation_checks", "law:repeat_noop", "law:return_restores", "law:history_independence", "ops:update_dm", "ops:update_period", "shape:single_subband", "shape:single_subint", "layout:F", "layout:transposed_view", "layout:strided_view", "dyadic_histories", "exact_half_bin_states", "ops:centre_copy_retuned", "nchans:64", "nchans:128", "ppm_histories", "overresolved_histories", "histories:warnings_as_errors", "cubes:with_empty_phase_bins", "band:ascending", "ops:update_dm_to_zero", "histories:debug_logging"]
 
 
 def EXHAUSTIVE(tier):
@@ -57,9 +57,9 @@ def cases(tier, seed):
                 yield {"kind": "lattice", "shape": si, "L": L, "prefix": [first, second]}
     rng = np.random.default_rng([seed, 1717])
     for k in range(100 if tier == "quick" else 2000):
-        yield {"kind": "random", "shape": int(rng.integers(0, 3)), "hseed": int(seed) * 100003 + k, "len": 50, "layout": LAYOUTS[k % 4], "nchans": [64, 128, 32][k % 3], "nan_bins": k % 5 == 1, "ascending": k % 7 == 3}
+        yield {"kind": "random", "shape": int(rng.integers(0, 3)), "hseed": int(seed) * 100003 + k, "len": 50, "layout": LAYOUTS[k % 4], "nchans": [64, 128, 32][k % 3], "nan_bins": k % 5 == 1, "ascending": k % 7 == 3, "debug_logging": k % 6 == 2}
     for si in range(len(PPM_SHAPES)):
-        for first in range(9):
+        for first in range(11):
             yield {"kind": "ppm", "shape": si, "first": first}
     for si in range(len(OVERRES_SHAPES)):
         for first in range(8):
@@ -188,6 +188,20 @@ def check_state(ctx, fd, base, shape, dm, period, visited, rec, step):
 
 
 def run_history(ctx, shape, ops, rec):
+    import logging
+
+    lg = logging.getLogger("sigpyproc.foldedcube")
+    lvl0 = lg.level
+    if rec.get("debug_logging"):
+        lg.setLevel(logging.DEBUG)      # what a user sees must not depend on how chatty the library is asked to be
+        ctx.count("histories:debug_logging")
+    try:
+        return _run_history(ctx, shape, ops, rec)
+    finally:
+        lg.setLevel(lvl0)
+
+
+def _run_history(ctx, shape, ops, rec):
     _cfg["foff"] = 1.0 if rec.get("ascending") else -1.0      # a band stored in ascending frequency order (e.g. after invert_freq)
     if rec.get("ascending"):
         ctx.count("band:ascending")
@@ -292,7 +306,8 @@ def dyadic_alphabet():
 
 def ppm_alphabet():
     P = PPM["P0"]
-    return [("p", P), ("p", P * (1 + 1e-6)), ("p", P * (1 + 2e-6)), ("p", P * (1 - 3e-6)), ("p", P * (1 + 8e-6)), ("dm", DM0), ("dm", DM0 + 0.004), ("dm", DM0 + 0.25), ("dm", DM0 + 0.5)]
+    return [("p", P), ("p", P * (1 + 1e-6)), ("p", P * (1 + 2e-6)), ("p", P * (1 - 3e-6)), ("p", P * (1 + 8e-6)), ("dm", DM0), ("dm", DM0 + 0.004), ("dm", DM0 + 0.25), ("dm", DM0 + 0.5),
+            ("dm", DM0 + 400.0), ("p", P * (1 + 1.2e-2))]
 
 
 def overres_alphabet():
@@ -393,7 +408,7 @@ def run_case(case, ctx):
         else:
             ops.append(("p", float(P0 * (1 + rng.choice([0.0, float(rng.uniform(-1e-3, 1e-3)), 1e-4, -1e-4, float(rng.uniform(-2e-5, 2e-5)), float(rng.uniform(-5e-3, 5e-3))])))))
     rec = {"kind": "history", "shape": case["shape"], "ops": [list(o) for o in ops], "layout": _layout["cur"], "nchans": case.get("nchans", 64),
-           "strict_warnings": bool(case["hseed"] % 4 == 0), "nan_bins": bool(case.get("nan_bins")), "ascending": bool(case.get("ascending"))}
+           "strict_warnings": bool(case["hseed"] % 4 == 0), "nan_bins": bool(case.get("nan_bins")), "ascending": bool(case.get("ascending")), "debug_logging": bool(case.get("debug_logging"))}
     if rec["strict_warnings"]:
         ctx.count("histories:warnings_as_errors")
     if run_history(ctx, shape, ops, rec) and case["hseed"] % 25 == 0:
